@@ -1,6 +1,7 @@
 """C01 -- yanny: tables and header pairs written to a file read back unchanged."""
 import copy
 import json
+import math
 import os
 import re
 import time
@@ -22,7 +23,16 @@ def translate(ctx):
     else:
         info['restored_committed_file'] = C.restore_generated('coq/Generated/YannyLits.v')
         info['note'] = 'a regex of yanny.py is no longer a plain literal: committed Generated/YannyLits.v kept; the correspondence run alone ties scanners to code'
-    return {'YannyLits': info}
+    # round 5: the decision logic of protect / dtype_to_struct / write / convert / default names -> Generated/YannyWriter.v
+    # (C01/Bridge.v proves every generated piece equal to the writer model Yanny/Render.v: C01_generated_* theorems)
+    wtext, winfo = T.generate_writer(C.REPO)
+    if wtext is not None:
+        winfo['changed'] = C.write_if_changed(os.path.join(C.COQ, 'Generated', 'YannyWriter.v'), wtext)
+    else:
+        winfo['restored_committed_file'] = C.restore_generated('coq/Generated/YannyWriter.v')
+        winfo['note'] = ('the writer of yanny.py left the statement subset of the translator: committed Generated/YannyWriter.v kept; '
+                         'the correspondence run alone ties the writer model to the code')
+    return {'YannyLits': info, 'YannyWriter': winfo, 'recognised': bool(info.get('recognised') and winfo.get('recognised'))}
 
 
 TRUSTED = [
@@ -30,7 +40,13 @@ TRUSTED = [
     'transliterated into a scanner) -- tied to the code by exact correspondence on every run: file bytes = render, '
     'parse(file bytes) = what the real reader returned',
     'numpy float text: str(np.float32/np.float64) is a bare token and float()/np.float32() read it back bit-identically '
-    '(oracle hypotheses; validated on every run over random bit patterns and all special values)',
+    '(oracle hypotheses; validated on every run over random bit patterns and all special values); on the fragment NaN / +-inf / '
+    'signed integer-valued (|x| < 1e6 in float32, <= 2**53 in float64) both are theorems about C01.FloatFrag.show_frag / parse_frag, '
+    'which are tied to numpy / float() by the CFloatText cases of every run',
+    'translate/c01.py generate_writer (statement translator of protect / dtype_to_struct / write / convert / default names -> '
+    'Generated/YannyWriter.v) and coq/C01/PyRt.v (meaning of the Python string / list / dict operations it emits); the numpy dtype view '
+    'dt[c].kind / subdtype / str / itemsize and decode() / str() of a cell are pinned to their exact source shape and otherwise exercised by '
+    'the correspondence only',
     'numpy conversion of Python int/str lists into i2/i4/i8/S<n> record columns, astropy Table <-> record array conversion',
     'harness/props/yanny_gen.py (document generator, Coq literal builders), harness/impl/c01_impl.py (dumps of the real objects)',
     'Coq stdlib NArith/ZArith/List/Lia (theorems closed under the global context)',
@@ -48,7 +64,7 @@ ASSUMPTIONS = [
 
 HEADER = '''From Coq Require Import String.
 From Coq Require Import NArith ZArith List. Import ListNotations.
-From PV Require Import Yanny.Bytes Yanny.Types Yanny.Parse Yanny.Render C01.Model. Open Scope N_scope.'''
+From PV Require Import Yanny.Bytes Yanny.Types Yanny.Parse Yanny.Render C01.FloatFrag C01.Model. Open Scope N_scope.'''
 
 UNSUPPORTED = ['u1', 'u2', 'u4', 'u8', 'i1', 'b1', 'f2', 'c8', 'c16', 'f16']
 
@@ -92,6 +108,30 @@ def gen_jobs(ctx):
         for r in t['rows']:
             r.insert(j, 0 if t['cols'][j]['arr'] is None else [0, 0])
         jobs.append({'kind': 'write', 'id': 'u%05d' % k, 'entry': 'ndarray', 'doc': doc, 'tag': 'unsupported', 'code': code})
+    # round 5: structnames=None -- the writer names the tables MYSTRUCT<k> itself (Generated gen_default_name)
+    for k in range(ctx.n(10, 60)):
+        doc = G.gen_doc(rng, 'ndarray')
+        for i, t in enumerate(doc['tables']):
+            t['name'] = 'MYSTRUCT%d' % i
+        if doc.get('hdr'):
+            doc['hdr'] = [kv for kv in doc['hdr'] if not kv[0].upper().startswith('MYSTRUCT')]
+        jobs.append({'kind': 'write', 'id': 'n%05d' % k, 'entry': 'ndarray', 'doc': doc, 'tag': 'in-domain', 'default_names': True,
+                     'single': bool(len(doc['tables']) == 1 and rng.random() < 0.5)})
+    # round 5: entry-point glue (refusals, overwrite, read_table_yanny errors, unsupported types through the Table route)
+    jobs.append({'kind': 'glue', 'id': 'glue', 'tag': 'glue', 'doc': None, 'entry': None})
+    # round 5: the float fragment (NaN, infinities, signed integer-valued): numpy's text and float() of it
+    vals = []
+    for code, nanpats, top in (('f4', [0x7fc00000, 0xffc00001, 0x7f800001, 0x7fffffff], 10 ** 6 - 1), ('f8', [0x7ff8000000000000, 0xfff8000000000001, 0x7ff0000000000001], 2 ** 53)):
+        w = 4 if code == 'f4' else 8
+        for b in nanpats:
+            vals.append([code, b])
+        for x in (float('inf'), float('-inf'), 0.0, -0.0, 1.0, -1.0, float(top), -float(top), float(top - 1)):
+            vals.append([code, G.float_bits(x, w)])
+        for _ in range(ctx.n(60, 600)):
+            t = rng.random()
+            n = rng.randint(0, 1000) if t < 0.3 else (rng.randint(0, top) if t < 0.8 else 10 ** rng.randint(0, 15 if code == 'f8' else 5))
+            vals.append([code, G.float_bits(float(-n if rng.random() < 0.5 else n), w)])
+    jobs.append({'kind': 'floattext', 'id': 'ftext', 'tag': 'floattext', 'values': vals, 'doc': None, 'entry': None})
     # out-of-domain stream: only refusal / documented exclusion is recorded, never equality
     ood = [('double-quote', 'a"b', 'cell'), ('leading-brace', '{ab', 'cell'), ('rbrace-in-array-element', 'a}b', 'elt'),
            ('backslash-ends-last-column', 'ab\\', 'last'), ('hash-in-header', 'a # b', 'hdr'),
@@ -110,7 +150,7 @@ def run_jobs(ctx, jobs, nb=12):
     nb = min(nb, max(1, len(jobs)))
     batches = [jobs[i::nb] for i in range(nb)]
     payloads = [{'workdir': os.path.join(ctx.work, 'files%d' % i),
-                 'jobs': [{k: v for k, v in j.items() if k in ('kind', 'id', 'entry', 'doc', 'single', 'text_hex')} for j in b]}
+                 'jobs': [{k: v for k, v in j.items() if k in ('kind', 'id', 'entry', 'doc', 'single', 'text_hex', 'default_names', 'values')} for j in b]}
                 for i, b in enumerate(batches)]
     outs = C.run_impl_parallel('c01_impl.py', payloads)
     results = [None] * len(jobs)
@@ -172,6 +212,107 @@ def case_term(job, res):
     rr = res.get('reread')
     impl_t = 'None' if (rr is None or 'exc' in rr) else '(Some %s)' % G.pdoc_term(rr['ok'], exp)
     return '(CWrite %s %s %s)' % (G.doc_term(doc), file_t, impl_t)
+
+
+def frag_of(code, bits):
+    """A float (raw bits) as a term of the fragment C01.FloatFrag.ffrag, or None when it lies outside."""
+    x = float(G.bits_to_float(code, bits))
+    if x != x:
+        return 'FNan'
+    neg = C.boollit(math.copysign(1.0, x) < 0)
+    if x in (float('inf'), float('-inf')):
+        return '(FInf %s)' % neg
+    if x == int(x) and abs(x) <= (10 ** 6 - 1 if code == 'f4' else 2 ** 53):   # numpy prints np.float32(1e6) as 1e+06
+        return '(FNum %s %d)' % (neg, abs(int(x)))
+    return None
+
+
+def extra_terms(ctx, jobs, results):
+    """Round 5 cases beyond one-document-one-case: default table names, float fragment texts."""
+    ex = []
+    for job, res in zip(jobs, results):
+        if job.get('default_names') and 'ok' in res['write']:
+            names = [t['name'] for t in res['write']['ok']['tables']]
+            ex.append(('default-names', job, '(CDefaultNames %d%%nat %s)' % (len(job['doc']['tables']), C.coq_list([G.blit(n) for n in names]))))
+        if job['tag'] == 'floattext':
+            for (code, bits), r in zip(job['values'], res['values']):
+                x = frag_of(code, bits)
+                if x is None:
+                    continue
+                back = frag_of(code, r['back_bits'])
+                ex.append(('float-fragment', {'code': code, 'bits': bits, 'impl': r},
+                           '(CFloatText %s %s %s %s)' % ('TFloat' if code == 'f4' else 'TDouble', x, G.blit(r['text']),
+                                                        'None' if back is None else '(Some %s)' % back)))
+    return ex
+
+
+def check_extras(ctx, extras, verdicts):
+    n = {}
+    seen = set()
+    for (kind, job, term), v in zip(extras, verdicts):
+        n[kind] = n.get(kind, 0) + 1
+        if v == 0:
+            continue
+        if kind == 'default-names':
+            sig = 'C01:model:default-names'
+            if sig not in seen:
+                seen.add(sig)
+                ctx.violation(sig, 'structnames=None: the table names of the written object are not MYSTRUCT<k> as the generated '
+                              'gen_default_name computes them', {'kind': 'broken-correspondence', 'item': 'Generated.YannyWriter.gen_default_name',
+                                                                  'doc': job['doc'], 'coq_case': term[:400]}, False)
+        else:
+            if v & 2:
+                sig = 'C01:float-fragment:text-does-not-read-back'
+                if sig not in seen:
+                    seen.add(sig)
+                    ctx.violation(sig, 'a float of the fragment (%s bits %#x) is printed as %r, which float() does not read back as the value'
+                                  % (job['code'], job['bits'], job['impl']['text']),
+                                  {'kind': 'failing-input', 'value': job, 'coq_case': term}, True)
+            else:
+                sig = 'C01:model:float-fragment'
+                if sig not in seen:
+                    seen.add(sig)
+                    ctx.violation(sig, 'C01.FloatFrag.show_frag / parse_frag differ from numpy / float() on %s bits %#x (text %r)'
+                                  % (job['code'], job['bits'], job['impl']['text']),
+                                  {'kind': 'broken-correspondence', 'item': 'C01.FloatFrag.show_frag / parse_frag', 'value': job, 'coq_case': term}, False)
+    ctx.coverage['round5_extra_cases'] = n
+
+
+GLUE_EXPECT = {
+    'names_mismatch': lambda o, ex: o['exc'] == ex and not o['file'],
+    'file_exists': lambda o, ex: o['exc'] == ex and o['same'],
+    'table_exists': lambda o, ex: o['exc'] == ex and o['same'],
+    'overwrite': lambda o, ex: o['exc'] is None and o.get('tables') == ['NEW'] and o.get('x') == [7, 8],
+    'read_noname': lambda o, ex: o['exc'] == ex,
+    'read_unknown': lambda o, ex: o['exc'] == 'KeyError',
+    'read_lowercase': lambda o, ex: o['exc'] is None,
+}
+
+
+def check_glue(ctx, jobs, results):
+    for job, res in zip(jobs, results):
+        if job['tag'] != 'glue':
+            continue
+        obs = res.get('obs', {})
+        ex = obs.get('exception_class', 'PydlutilsException')
+        bad = []
+        for name, o in obs.items():
+            if name == 'exception_class':
+                continue
+            if name.startswith(('table_unsupported_', 'tablewrite_unsupported_')):
+                good = o['exc'] is not None and not o['file']
+            else:
+                good = GLUE_EXPECT[name](o, ex)
+            if not good:
+                bad.append((name, o))
+        ctx.coverage['glue_checks'] = len(obs) - 1
+        for name, o in bad:
+            unsup = 'unsupported' in name
+            ctx.violation('C01:glue:%s' % name, 'entry-point glue: %s behaves unexpectedly: %r' % (name, o),
+                          {'kind': 'failing-input' if unsup else 'broken-correspondence', 'item': 'entry-point glue ' + name,
+                           'check': name, 'observed': o,
+                           'input': 'Table(np.zeros((1,), dtype=[("x","i4"),("q","%s")])) written with tablename U' % name.rsplit('_', 1)[-1] if unsup else name},
+                          unsup)
 
 
 def shrink(ctx, job, outcome, deadline=None):
@@ -239,9 +380,13 @@ def correspond(ctx, proof_ok=True):
     ctx.coverage['pydl_file'] = pydl_file
     idx = [k for k, j in enumerate(jobs) if j['tag'] in ('in-domain', 'unsupported')]
     terms = [case_term(jobs[k], results[k]) for k in idx]
+    extras = extra_terms(ctx, jobs, results)
     cc = C.CoqCases(ctx.work, HEADER, 'run_cases', shard=ctx.n(18, 40))
-    verdicts = dict(zip(idx, cc.run(terms)))
+    allv = cc.run(terms + [t for _k, _j, t in extras])
+    verdicts = dict(zip(idx, allv[:len(terms)]))
     ctx.coverage['coq_eval_s'] = round(cc.coq_seconds, 1)
+    check_extras(ctx, extras, allv[len(terms):])
+    check_glue(ctx, jobs, results)
 
     dist = {}
     feats = {}
@@ -251,6 +396,8 @@ def correspond(ctx, proof_ok=True):
     for k, (job, res) in enumerate(zip(jobs, results)):
         doc = job['doc']
         tag = job['tag']
+        if tag in ('glue', 'floattext'):
+            continue
         if tag == 'out-of-domain':
             out, det = py_outcome(doc, res, job['entry'])
             ood[job['note']] = 'round trip holds anyway' if out == 'ok' else out
@@ -328,8 +475,8 @@ def correspond(ctx, proof_ok=True):
                                   '(or the writer raised); +8/+16: writer/reader model differs from the implementation'}, True)
     nin = sum(1 for j in jobs if j['tag'] == 'in-domain')
     ctx.coverage.update({
-        'evaluations': len(idx),
-        'distinct_nontrivial': len(set(terms)),
+        'evaluations': len(idx) + len(extras),
+        'distinct_nontrivial': len(set(terms) | set(t for _k, _j, t in extras)),
         'rule': 'one evaluation = one generated document written by the real writer (write_ndarray_to_yanny, write_table_yanny, '
                 'Table.write(format=yanny)), re-read by yanny(path) (+ returned object, read_table_yanny, Table.read), and '
                 'compared in Coq: file bytes = Render.render_checked(doc), Parse.parse(file bytes) = what the real reader '
